@@ -7,7 +7,7 @@ import random
 
 import numpy
 
-from ECAgent.Core import Agent, Component, Model
+from ECAgent.Core import Agent, Component, Environment, Model
 from ECAgent.Environments import PositionComponent, SpaceWorld
 
 PROPERTY = "C13"
@@ -20,12 +20,12 @@ RULE = ("0-8 agents with arbitrary subsets of 4 component types and tags from {d
         "perturbation in between; non-trivial = a template of >=2 types that some agents match only partly, a tag-0 "
         "filter excluding >=1 agent and a candidate set >=2; distinct = sequence of (op, template size, tag, |answer|, "
         "|population|)"
-        "; also: tags reassigned while resident, a component type that subclasses another, model lifecycle ops")
+        "; also: tags reassigned while resident, a component type that subclasses another, model lifecycle ops, agents that are environments themselves (empty or inhabited)")
 COMPONENTS = {"real": ["ECAgent.Core.Environment.get_agents / get_random_agent / shuffle / add_agent / remove_agent",
                        "Agent.has_component", "Model.random", "SpaceWorld (some runs)"],
               "stub": ["component classes and agents are harness-defined; global random / numpy.random are perturbed"]}
 PROBES = ["tag_zero_filter", "template_and_tag", "nobody_matches", "partial_template_match", "returned_list_mutated",
-          "reach_all_members", "same_seed_repeat", "type_nobody_has", "spatial_world", "default_tag_agent", "retag_while_resident", "model_lifecycle_op", "subclass_component_only"]
+          "reach_all_members", "same_seed_repeat", "type_nobody_has", "spatial_world", "default_tag_agent", "retag_while_resident", "model_lifecycle_op", "subclass_component_only", "agent_is_an_environment"]
 TECHNIQUE = "deterministic simulation: filter queries inside seeded add/remove histories vs a list-comprehension reference; bounded reachability over reseeded model generators; ambient RNG perturbation between picks"
 LEVEL_TEXT = ("Seeded search over populations, histories, templates and tag filters; every listing must equal the reference filter "
               "(identity, joining order, fresh list), every pick must be a member, every shuffle a permutation, nothing may "
@@ -48,7 +48,10 @@ class T2(Component):
 
 
 class T3(Component):
-    pass
+    """A container-like component that holds nothing: falsy (carrying it is a matter of presence, not of truth value)."""
+
+    def __len__(self):
+        return 0
 
 
 class T4(Component):   # nobody ever has this one
@@ -98,7 +101,12 @@ def generate(rng, tier):
                 op["seed"] = rng.randint(0, 10 ** 6)
                 op["ambient"] = rng.choice(["none", "reseed", "consume", "np"])
             ops.append(op)
-    return {"pool": pool, "ops": ops, "seed": rng.randint(0, 10 ** 6), "world": rng.choice(["plain", "plain", "plain", "space"])}
+    out = {"pool": pool, "ops": ops, "seed": rng.randint(0, 10 ** 6), "world": rng.choice(["plain", "plain", "plain", "space"])}
+    if rng.random() < 0.3:      # some agents are environments themselves (empty - hence falsy - or inhabited)
+        for p_ in pool:
+            if rng.random() < 0.3:
+                p_["nest"] = {"kind": rng.choice(["plain", "space"]), "inner": rng.choice([0, 1, 2])}
+    return out
 
 
 def execute(sc, ctx):
@@ -118,7 +126,17 @@ def execute(sc, ctx):
 
     def make(spec):
         tag = TAGS[spec["tag"] % len(TAGS)]
-        a = Agent(spec["id"], m) if tag is None else Agent(spec["id"], m, tag=tag)
+        nest = spec.get("nest")
+        if nest:
+            a = SpaceWorld(m, 2.0, 2.0, id=spec["id"]) if nest["kind"] == "space" else Environment(m, id=spec["id"])
+            for j in range(int(nest.get("inner", 0))):
+                x = Agent(f"{spec['id']}.in{j}", m)
+                a.add_agent(x, 1.0, 1.0) if nest["kind"] == "space" else a.add_agent(x)
+            if tag is not None:
+                a.tag = tag
+            ctx.probe("agent_is_an_environment")
+        else:
+            a = Agent(spec["id"], m) if tag is None else Agent(spec["id"], m, tag=tag)
         if tag is None:
             ctx.probe("default_tag_agent")
         for c in spec["comps"]:
